@@ -821,9 +821,65 @@ func indexOf(xs []string, x string) int {
 	return -1
 }
 
+// hasKnownShape reports the shape of the listed known finding: an argument or input field
+// that is required (top-level NON_NULL) in some document and absent from another document
+// that has the owning field / input type. The pairwise "new field is non-null" rule then
+// makes the folded merge depend on the order of services and versions.
+func hasKnownShape(c Case) bool {
+	type occ struct{ nonNull, ownerWithout bool }
+	m := map[string]*occ{}
+	var docs []map[string]elem
+	for _, vs := range c.Services {
+		for _, d := range vs {
+			docs = append(docs, elements(d))
+		}
+	}
+	owner := func(k string) string {
+		if strings.HasPrefix(k, "arg ") {
+			return "field " + k[4:strings.Index(k, "(")]
+		}
+		if strings.HasPrefix(k, "input ") {
+			name := k[6:strings.Index(k, ".")]
+			return "type INPUT_OBJECT " + name
+		}
+		return ""
+	}
+	for _, de := range docs {
+		for k, e := range de {
+			if !e.input {
+				continue
+			}
+			if m[k] == nil {
+				m[k] = &occ{}
+			}
+			if e.ref.Kind == "NON_NULL" {
+				m[k].nonNull = true
+			}
+		}
+	}
+	for k, o := range m {
+		if !o.nonNull {
+			continue
+		}
+		for _, de := range docs {
+			if _, has := de[k]; has {
+				continue
+			}
+			if _, ok := de[owner(k)]; ok {
+				return true
+			}
+		}
+	}
+	return false
+}
+
 func TestMergeAlgebra(t *testing.T) {
 	rapid.Check(t, func(t *rapid.T) {
 		c, renames := genCase(t)
+		if excludeKnown && hasKnownShape(c) {
+			rec.Excluded("intersection-order-dependent")
+			return
+		}
 		nt, labels, sig, err := check(c, renames)
 		if err != nil {
 			p := rec.Violate("TestMergeAlgebra", map[string]interface{}{"case": c, "renames": renames}, sig+": "+err.Error())
